@@ -11,6 +11,8 @@ for sid in ids:
     if not os.path.exists(mp):
         continue
     meta = json.load(open(mp))
+    if "property" not in meta:
+        continue        # soundness probes (seeded/benign-*) are not changes against one property
     prop = meta["property"]
     scratch = tempfile.mkdtemp(prefix="rc-", dir="/tmp"); os.rmdir(scratch)
     try:
